@@ -1,4 +1,198 @@
-pub fn main(_args: &[String]) -> i32 {
-    eprintln!("engine not built yet");
-    2
+//! C28: low-degree extensions.  Scenarios (spec/math/LDE.tla) carry column polynomials and the expected
+//! LDE rows (all, or a seeded sample for large sizes), the trace of the polynomials and their values
+//! at extension points.  Real calls: RowMatrix::evaluate_polys::<N> (offset = field generator),
+//! RowMatrix::evaluate_polys_over::<N> with a StarkDomain built from twiddles, blowup and offset (N = 8, the
+//! prover's segment width, and N = 4), ColMatrix::{evaluate_columns_over, evaluate_columns_at,
+//! interpolate_columns, interpolate_columns_into}.
+use serde_json::{json, Value};
+use wfcommon::util::{catch, read_ndjson, usizes_of, Out};
+use winter_math::{fft, FieldElement, StarkField};
+use winter_prover::{
+    matrix::{ColMatrix, RowMatrix},
+    StarkDomain,
+};
+
+use crate::{
+    elem::{usize_of, vec_of, Elem},
+    pool::for_each_pool,
+    with_field,
+};
+
+struct Rep {
+    calls: usize,
+    bad: Vec<Value>,
+}
+
+fn cols_of<E: Elem>(v: &Value) -> Vec<Vec<E>> {
+    v.as_array().map(|a| a.iter().map(|c| vec_of::<E>(c)).collect()).unwrap_or_default()
+}
+
+fn check_rows<E: FieldElement + Elem>(rep: &mut Rep, call: &str, m: &RowMatrix<E>, nrows: usize, k: usize, idx: &[usize], rows: &[Vec<E>]) {
+    rep.calls += 1;
+    if m.num_rows() != nrows || m.num_cols() != k {
+        rep.bad.push(json!({"call": call, "what": "matrix shape", "expected": [nrows, k], "got": [m.num_rows(), m.num_cols()]}));
+        return;
+    }
+    for (r, want) in idx.iter().zip(rows.iter()) {
+        rep.calls += 1;
+        let got = m.row(*r);
+        if got != &want[..] {
+            let c = (0..k).find(|&c| got[c] != want[c]).unwrap_or(0);
+            rep.bad.push(json!({"call": call, "what": "row value", "row": r, "column": c,
+                "expected": want[c].to_json(), "got": got[c].to_json()}));
+            return;
+        }
+        // get(col, row) is the same cell
+        if m.get(k - 1, *r) != want[k - 1] {
+            rep.bad.push(json!({"call": format!("{call}.get"), "what": "cell value", "row": r, "column": k - 1}));
+            return;
+        }
+    }
+}
+
+fn lde<B, E>(sc: &Value, rep: &mut Rep)
+where
+    B: StarkField + Elem,
+    E: FieldElement<BaseField = B> + Elem,
+{
+    let n = usize_of(&sc["n"]);
+    let blowup = usize_of(&sc["blowup"]);
+    let k = usize_of(&sc["k"]);
+    let offset = B::from_json(&sc["offset"]);
+    let polys: Vec<Vec<E>> = cols_of(&sc["polys"]);
+    let idx = usizes_of(&sc["idx"]);
+    let rows: Vec<Vec<E>> = cols_of(&sc["rows"]);
+    let nrows = n * blowup;
+    let cm = ColMatrix::new(polys.clone());
+    macro_rules! try_rows {
+        ($call:expr, $e:expr) => {
+            match catch(|| $e) {
+                Ok(m) => check_rows(rep, $call, &m, nrows, k, &idx, &rows),
+                Err(p) => {
+                    rep.calls += 1;
+                    rep.bad.push(json!({"call": $call, "what": "panicked", "panic": p}))
+                },
+            }
+        };
+    }
+    if offset == B::GENERATOR {
+        try_rows!("RowMatrix::evaluate_polys::<8>", RowMatrix::<E>::evaluate_polys::<8>(&cm, blowup));
+        try_rows!("RowMatrix::evaluate_polys::<4>", RowMatrix::<E>::evaluate_polys::<4>(&cm, blowup));
+    }
+    let domain = match catch(|| StarkDomain::<B>::from_twiddles(fft::get_twiddles::<B>(n), blowup, offset)) {
+        Ok(d) => d,
+        Err(p) => {
+            rep.bad.push(json!({"call": "StarkDomain::from_twiddles", "what": "panicked", "panic": p}));
+            return;
+        },
+    };
+    try_rows!("RowMatrix::evaluate_polys_over::<8>", RowMatrix::<E>::evaluate_polys_over::<8>(&cm, &domain));
+    try_rows!("RowMatrix::evaluate_polys_over::<4>", RowMatrix::<E>::evaluate_polys_over::<4>(&cm, &domain));
+    try_rows!("RowMatrix::evaluate_polys_over::<1>", RowMatrix::<E>::evaluate_polys_over::<1>(&cm, &domain));
+    // column-major evaluation
+    rep.calls += 1;
+    match catch(|| cm.evaluate_columns_over(&domain)) {
+        Ok(ev) => {
+            if ev.num_rows() != nrows || ev.num_cols() != k {
+                rep.bad.push(json!({"call": "ColMatrix::evaluate_columns_over", "what": "matrix shape", "expected": [nrows, k], "got": [ev.num_rows(), ev.num_cols()]}));
+            } else {
+                'outer: for (r, want) in idx.iter().zip(rows.iter()) {
+                    for c in 0..k {
+                        rep.calls += 1;
+                        if ev.get(c, *r) != want[c] {
+                            rep.bad.push(json!({"call": "ColMatrix::evaluate_columns_over", "what": "cell value", "row": r, "column": c,
+                                "expected": want[c].to_json(), "got": ev.get(c, *r).to_json()}));
+                            break 'outer;
+                        }
+                    }
+                }
+            }
+        },
+        Err(p) => rep.bad.push(json!({"call": "ColMatrix::evaluate_columns_over", "what": "panicked", "panic": p})),
+    }
+    // evaluation at extension points
+    let zs: Vec<E> = vec_of(&sc["zs"]);
+    let at: Vec<Vec<E>> = cols_of(&sc["at"]);
+    for (z, want) in zs.iter().zip(at.iter()) {
+        rep.calls += 1;
+        match catch(|| cm.evaluate_columns_at(*z)) {
+            Ok(v) if &v == want => {},
+            Ok(v) => {
+                let c = (0..k.min(v.len())).find(|&c| v[c] != want[c]).unwrap_or(0);
+                rep.bad.push(json!({"call": "ColMatrix::evaluate_columns_at", "what": "value", "z": z.to_json(), "column": c,
+                    "expected": want.get(c).map(|e| e.to_json()), "got": v.get(c).map(|e| e.to_json())}));
+            },
+            Err(p) => rep.bad.push(json!({"call": "ColMatrix::evaluate_columns_at", "what": "panicked", "panic": p})),
+        }
+    }
+    // interpolation of the trace gives the polynomials back
+    let trace: Vec<Vec<E>> = cols_of(&sc["trace"]);
+    if !trace.is_empty() {
+        interp_check(rep, trace, &polys);
+    }
+}
+
+fn interp_check<E: FieldElement + Elem>(rep: &mut Rep, trace: Vec<Vec<E>>, polys: &[Vec<E>]) {
+    let tm = ColMatrix::new(trace);
+    let cmp = |rep: &mut Rep, call: &str, got: ColMatrix<E>| {
+        rep.calls += 1;
+        for (c, want) in polys.iter().enumerate() {
+            if got.get_column(c) != &want[..] {
+                let j = (0..want.len()).find(|&j| got.get_column(c)[j] != want[j]).unwrap_or(0);
+                rep.bad.push(json!({"call": call, "what": "coefficient", "column": c, "index": j,
+                    "expected": want[j].to_json(), "got": got.get_column(c)[j].to_json()}));
+                return;
+            }
+        }
+    };
+    match catch(|| tm.interpolate_columns()) {
+        Ok(p) => cmp(rep, "ColMatrix::interpolate_columns", p),
+        Err(p) => rep.bad.push(json!({"call": "ColMatrix::interpolate_columns", "what": "panicked", "panic": p})),
+    }
+    match catch(|| tm.clone().interpolate_columns_into()) {
+        Ok(p) => cmp(rep, "ColMatrix::interpolate_columns_into", p),
+        Err(p) => rep.bad.push(json!({"call": "ColMatrix::interpolate_columns_into", "what": "panicked", "panic": p})),
+    }
+}
+
+fn interp<B, E>(sc: &Value, rep: &mut Rep)
+where
+    B: StarkField + Elem,
+    E: FieldElement<BaseField = B> + Elem,
+{
+    let polys: Vec<Vec<E>> = cols_of(&sc["polys"]);
+    let trace: Vec<Vec<E>> = cols_of(&sc["trace"]);
+    interp_check(rep, trace, &polys);
+}
+
+pub fn main(args: &[String]) -> i32 {
+    let scenarios = read_ndjson(&args[0]);
+    let threads: Vec<usize> = args.get(1).map(|s| s.split(',').filter_map(|t| t.parse().ok()).collect()).unwrap_or_default();
+    let mut out = Out::new();
+    let (mut calls, mut bad, mut runs) = (0usize, 0usize, 0usize);
+    for_each_pool(&threads, |t| {
+        runs += 1;
+        for (i, sc) in scenarios.iter().enumerate() {
+            let p = usize_of(&sc["P"]);
+            let d = usize_of(&sc["d"]);
+            let mut rep = Rep { calls: 0, bad: vec![] };
+            match sc["fam"].as_str() {
+                Some("lde") => with_field!(p, d, lde(sc, &mut rep)),
+                Some("interp") => with_field!(p, d, interp(sc, &mut rep)),
+                _ => {
+                    eprintln!("lde: unknown scenario family in line {i}");
+                    std::process::exit(2)
+                },
+            }
+            calls += rep.calls;
+            for d in rep.bad {
+                bad += 1;
+                out.emit(&json!({"i": i, "threads": t, "detail": d}));
+            }
+        }
+    });
+    out.emit(&json!({"summary": true, "scenarios": scenarios.len(), "runs": runs, "calls": calls, "mismatches": bad,
+        "concurrent": cfg!(feature = "concurrent"), "threads": threads}));
+    out.flush();
+    0
 }
